@@ -130,6 +130,13 @@ def _wr(rng, extra=False):
         w.append({"name": "Alert", "kind": rng.choice(["rec", "flw"]), "ceil": rng.randint(0, 5)})
     if extra and rng.random() < 0.2:
         w.append({"name": "S2", "kind": "syslog", "ceil": rng.randint(0, 5)})
+    if rng.random() < 0.3:
+        # an additional writer with an I/O problem: every write() is recorded and then reported as failed; the other writers
+        # of the list and the default channel are served nevertheless
+        for x in w:
+            if x["kind"] == "rec":
+                x["fail"] = True
+                break
     rng.shuffle(w)
     return w
 
